@@ -289,5 +289,41 @@ pub fn run(ctx: &mut Ctx) {
     }
     // ---- oracle 5: typed traffic through a receive buffer (see c11::typed_traffic)
     { let n = if ctx.quick() { 300 } else { 3000 }; crate::c11::typed_traffic(ctx, 0, n); }
+    // ---- oracle 6: what an object does depends on ITS session key only, not on which objects were built or used
+    //      before it: a pair for K1 is built and used, then objects for a structurally related K2; K2's stream is
+    //      compared with the recurrence under K2's key
+    {
+        let mut rng = ctx.rng("oracle6");
+        let n = if ctx.quick() { 400 } else { 6000 };
+        for k in 0..n {
+            let k1: [u8; 40] = match k % 5 { 0 => { let mut x = [0u8; 40]; x[rng.below(40) as usize] = 1 << rng.below(8); x } _ => rng.arr() };
+            let (k2, rel) = crate::c11::related_key(&mut rng, &k1);
+            let used = rng.range(0, 60) as usize;
+            let data = rng.bytes(64);
+            let d2 = data.clone();
+            let r = catch(move || {
+                let (mut e1, mut d1) = halves(k1);
+                let mut w = vec![0u8; used]; e1.encrypt(&mut w); d1.decrypt(&mut w);
+                let (mut e2, mut dd2) = halves(k2);
+                let mut c = new_crypto(k2);
+                let (mut a, mut b) = (d2.clone(), d2.clone());
+                e2.encrypt(&mut a); c.encrypt(&mut b);
+                let (mut pa, mut pb) = (a.clone(), a.clone());
+                dd2.decrypt(&mut pa); c.decrypt(&mut pb);
+                (a, b, pa, pb)
+            });
+            ctx.oracle_runs += 1;
+            let det = |what: &str| format!("{{\"what\":\"{}\",\"first_key\":\"{}\",\"second_key\":\"{}\",\"relation\":\"{}\",\"bytes_through_first_pair\":{},\"data\":\"{}\"}}", what, hex(&k1), hex(&k2), rel, used, hex(&data));
+            match r {
+                None => ctx.fail("panic", det("panic while building objects for a second key")),
+                Some((a, b, pa, pb)) => {
+                    let want = spec_enc(&k2.to_vec(), &data);
+                    if a != want || b != want { ctx.fail("construction_history", det("the stream of the SECOND key's objects, built after objects for the first key, is not the recurrence under the second key")); }
+                    else if pa != data || pb != data { ctx.fail("construction_history", det("the SECOND key's decrypter, built after objects for the first key, does not invert its encrypter")); }
+                }
+            }
+            ctx.count(&format!("oracle6_relation:{}", rel));
+        }
+    }
     ctx.exhaustive.push(format!("step table: all 40 x 256 x 256 (position, previous, input) combinations, both directions, for {} key(s)", nkeys));
 }
